@@ -208,6 +208,20 @@ def handle (c : Case) : Verdict :=
       { corr := m == obs && refsMatchSpec s base, spec := sp, why, model := m,
         branch := s!"parse.base{base}." ++ (if s.isEmpty then "empty" else if l.endp == 0 then "noconv" else if l.erange then "erange" else if l.endp == s.length then "full" else "prefix"),
         nontrivial := !s.isEmpty }
+  | "num.bool" =>
+      -- to_bool: "true" / "false" compared without regard to ASCII letter case, anything else is to_int() != 0 (base 0)
+      let s := parseUnits 8 (c.get "in")
+      let lower := s.map fun b => if 65 ≤ b && b ≤ 90 then b + 32 else b
+      let (v, vr, ok, full) : Bool × Bool × Bool × Bool :=
+        if lower == [116, 114, 117, 101] then (true, true, true, true)
+        else if lower == [102, 97, 108, 115, 101] then (false, false, true, true)
+        else
+          let (x, f) := toIntTyR .s32 s 0
+          (toIntTy .s32 s 0 != 0, x != 0, f.ok, f.fullMatch)
+      let m := s!"ok v={b01 v} r={b01 vr},{b01 ok}{b01 full} fb={fmtUnits 8 (if v then [116, 114, 117, 101] else [102, 97, 108, 115, 101])}"
+      { corr := m == obs, spec := m == obs, why := if m == obs then "" else "to_bool / from_bool differ from 'true'/'false' (any case) or to_int() != 0: " ++ m,
+        model := m, branch := "bool." ++ (if lower == [116, 114, 117, 101] || lower == [102, 97, 108, 115, 101] then "word" else if ok then "number" else "other"),
+        nontrivial := !s.isEmpty }
   | "blk.num.i16" =>
       let route := c.get "route"; let sgn := c.nat "sgn" != 0; let base := c.nat "base"; let up := c.nat "up" != 0
       let lo := c.nat "lo"; let n := c.nat "n"
